@@ -28,12 +28,18 @@ def gen_cases(tier, seed):
     rng = gen.rng_for(seed, ID, tier)
     cs = itertools.count(1)
     nshapes = 10 if tier == "quick" else 80
-    for fam in ("exact", "noisy", "int32", "uint8", "float32", "tucker-sparse", "empty-tail"):
+    for fam in ("exact", "noisy", "int32", "uint8", "float32", "tucker-sparse", "empty-tail", "shared-factors"):
         for _ in range(nshapes if fam in ("exact", "noisy") else max(2, nshapes // 3)):
             N = int(rng.integers(2, 5))
             shape = [int(s) for s in rng.integers(2, 8 if N < 4 else 5, size=N)]
             if fam == "tucker-sparse":
                 shape = [int(s) for s in rng.integers(4, 8 if N < 4 else 5, size=N)]
+            if fam == "shared-factors":
+                N = max(N, 3) if N < 4 else N
+                shape = [int(s) for s in rng.integers(3, 6, size=N)]
+                shape[1] = shape[0]                         # two (or three) modes of equal size share one factor-matrix object
+                if rng.random() < 0.4:
+                    shape[2] = shape[0]
             dseed = int(rng.integers(0, 2 ** 31))
             for n in range(N):
                 for r in range(1, shape[n] + 1):
@@ -53,6 +59,20 @@ def _data(case):
     K = ttb.ktensor([f.copy() for f in fm], w.copy())
     A = denote(K)
     H = {}
+    if case["fam"] == "shared-factors":
+        # one ndarray object serves as the factor matrix of several modes (no-copy construction, or assigning one matrix to several slots)
+        Fs = np.asfortranarray(fm[0])
+        shared = [Fs if shape[k_] == shape[0] and k_ <= 2 else np.asfortranarray(fm[k_]) for k_ in range(len(shape))]
+        Ksh = ttb.ktensor(list(shared), w.copy(), copy=False)
+        core = np.zeros((R,) * len(shape))
+        for r_ in range(R):
+            core[(r_,) * len(shape)] = w[r_]
+        Tsh = ttb.ttensor(ttb.tensor(core), list(shared), copy=False)
+        A = denote(ttb.ktensor([np.array(f) for f in shared], w.copy()))
+        H["ktensor"] = Ksh
+        H["ttensor"] = Tsh
+        H["tensor"] = ttb.tensor(A.copy())
+        return A, H
     if case["fam"] == "tucker-sparse":
         # Tucker tensors with a (really) sparse core and (really) sparse factor matrices next to the same data held with dense parts
         from scipy import sparse as sp
